@@ -7,6 +7,7 @@ import (
 	"github.com/EliCDavis/polyform/math/mat"
 	"github.com/EliCDavis/polyform/math/quaternion"
 	"github.com/EliCDavis/polyform/math/trs"
+	"github.com/EliCDavis/polyform/modeling"
 	"github.com/EliCDavis/vector/vector3"
 )
 
@@ -123,6 +124,36 @@ func runC17(c *Ctx) {
 		c.Emit("c17.aabb.contains", bbF(bb)+" "+vF(pt), B(bb.Contains(pt)))
 		c.Emit("c17.aabb.contains", bbF(e)+" "+vF(pt), B(e.Contains(pt)))
 		c.Emit("c17.aabb.intersects", bbF(bb)+" "+bbF(bb2), B(bb.Intersects(bb2)))
+		// mesh level
+		{
+			n := 1 + c.Rng.Intn(6)
+			pts := make([]vector3.Float64, n)
+			args := ""
+			for i := range pts {
+				pts[i] = c.v3()
+				args += " " + vF(pts[i])
+			}
+			idx := make([]int, 0)
+			for i := 0; i+2 < n; i++ {
+				idx = append(idx, i, i+1, i+2)
+			}
+			m := modeling.NewTriangleMesh(idx).SetFloat3Attribute(modeling.PositionAttribute, pts)
+			out := func(r modeling.Mesh) string {
+				s := ""
+				it := r.Float3Attribute(modeling.PositionAttribute)
+				for i := 0; i < it.Len(); i++ {
+					if i > 0 {
+						s += " "
+					}
+					s += vF(it.At(i))
+				}
+				return s
+			}
+			c.Emit("c17.mesh.rotate", qF(u1)+args, out(m.Rotate(u1)))
+			c.Emit("c17.mesh.translate", vF(tp)+args, out(m.Translate(tp)))
+			c.Emit("c17.mesh.scale", vF(ts)+args, out(m.Scale(ts)))
+			c.Emit("c17.mesh.applytrs", vF(tp)+" "+qF(u1)+" "+vF(ts)+args, out(m.ApplyTRS(t)))
+		}
 		la, lb := c.v3(), c.v3()
 		if la.Distance(lb) > 1e-6 {
 			c.Emit("c17.line.closest", vF(la)+" "+vF(lb)+" "+vF(pt), vF(geometry.NewLine3D(la, lb).ClosestPointOnLine(pt)))
